@@ -64,3 +64,18 @@ pub fn selftest() -> Result<(), String> {
     }
     Ok(())
 }
+
+/// Run `f` in a fresh hash epoch: a new thread whose RandomState keys derive from `seed`.
+pub fn in_epoch<T: Send + 'static>(seed: u64, f: impl FnOnce() -> T + Send + 'static) -> T {
+    let h = std::thread::Builder::new()
+        .stack_size(4 << 20)
+        .spawn(move || {
+            set_thread_hash_seed(seed);
+            f()
+        })
+        .expect("spawn epoch thread");
+    match h.join() {
+        Ok(v) => v,
+        Err(p) => std::panic::resume_unwind(p),
+    }
+}
